@@ -228,7 +228,7 @@ def ob_relay_set(run, oid):
 def ob_forward(run, oid):
     prog = run.program("lib")
     o = run.ob(oid, "the receive path forwards every validated shred before (and independently of) leader check and blockstore result",
-               "a relay that forwards only what it could store, or not when it is the leader's peer, breaks dissemination for everyone behind it", floor=2)
+               "a relay that forwards only what it could store, or not when it is the leader's peer, breaks dissemination for everyone behind it", floor=6)
     fam = [b for b in prog.family(A + "consensus::Alpenglow::handle_disseminator_shred") if b.is_closure and b.defpath.endswith("handle_disseminator_shred::{closure#0}")]
     if not fam:
         o.missing("Alpenglow::handle_disseminator_shred")
@@ -244,6 +244,27 @@ def ob_forward(run, oid):
             o.check(bool(g), "handle_disseminator_shred|forward|validated", "only validated shreds are forwarded", c.span)
             if add:
                 o.check(b.dominates(c.bb, add[0].bb), "handle_disseminator_shred|forward|first", "forwarding precedes blockstore ingestion", c.span)
+
+    # Turbine: a node forwards to ALL its children in the tree, for the tree of this (slot, index in slot)
+    tf = [b for b in prog.family(TURB + "::forward_shred") if b.is_closure and b.defpath.endswith("forward_shred::{closure#0}")]
+    if not tf:
+        o.missing("Turbine::forward_shred")
+    for b in tf:
+        snd = [c for c in b.calls() if c.callee.endswith("Network::send_to_many")]
+        ok = len(snd) == 1
+        det = {}
+        if ok:
+            c = snd[0]
+            t = b.operand_term(c.args[2])
+            pv = b.provenance(t, depth=8)
+            calls = sorted(set(x.rsplit("::", 1)[-1] for x in pv["calls"]))
+            det = {"calls": calls}
+            narrowing = [x for x in calls if x in ("filter", "filter_map", "take", "skip", "take_while", "skip_while", "step_by", "retain", "dedup")]
+            ok = any(x.endswith("get_children") for x in pv["calls"]) and not narrowing and not DET.extra_guards(prog, b, c.bb, [])
+        o.check(ok, "Turbine::forward_shred|all-children", "the shred goes to every child of this node in the tree (no filter, no condition)", snd[0].span if snd else b.span, det)
+        gt = [c for c in b.calls() if c.name == TURB + "::get_tree"]
+        ok = len(gt) == 1 and K.mentions_field(b.operand_term(gt[0].args[1]), "slot", "SliceHeader") and K.mentions_call(b.operand_term(gt[0].args[2]), "index_in_slot")
+        o.check(ok, "Turbine::forward_shred|tree-of-this-shred", "the tree is the one for (shred.slot, shred.index_in_slot())", gt[0].span if gt else b.span)
 
 
 def check(run):
